@@ -28,11 +28,22 @@ const (
 	rbWrongSid       // responses with a wrong session id
 	rbForgedSig      // responses with an invalid signature
 	rbBadCommits     // secret commitments that do not match the dealt shares
+	rbBadDealsMulti  // invalid shares to SEVERAL victims; each complaint is, independently, answered validly / invalidly / not at all
 	rbNumFaults
 )
 
+// how a dealer answers the complaint of one victim
+const (
+	vjValid   = iota // the valid deal is revealed
+	vjInvalid        // the invalid deal is revealed
+	vjNone           // no answer
+)
+
+var vjName = []string{"valid-justification", "invalid-justification", "no-justification"}
+
 var rbName = []string{"honest", "bad-deal/valid-justification", "bad-deal/invalid-justification", "bad-deal/no-justification",
-	"false-complaint", "silent", "duplicate-responses", "wrong-session-id", "forged-signature", "bad-secret-commits"}
+	"false-complaint", "silent", "duplicate-responses", "wrong-session-id", "forged-signature", "bad-secret-commits",
+	"bad-deals-to-several-victims"}
 
 type rparty struct {
 	id     int
@@ -40,7 +51,8 @@ type rparty struct {
 	pub    kyber.Point
 	gen    *rdkg.DistKeyGenerator
 	fault  int
-	victim int
+	victim int         // first victim (-1: none)
+	vjust  map[int]int // victim -> how its complaint is answered (vj*); the victims of a bad deal
 	target int
 	calls  []string
 	dks    *rdkg.DistKeyShare
@@ -60,7 +72,18 @@ func (sc *rscen) describe() map[string]interface{} {
 	var fs []string
 	for _, p := range sc.ps {
 		if p.fault != rbHonest {
-			fs = append(fs, fmt.Sprintf("party%d: %s victim=%d target=%d", p.id, rbName[p.fault], p.victim, p.target))
+			vs := ""
+			if isBadDeal(p.fault) {
+				var ks []int
+				for v := range p.vjust {
+					ks = append(ks, v)
+				}
+				sort.Ints(ks)
+				for _, v := range ks {
+					vs += fmt.Sprintf(" victim%d:%s", v, vjName[p.vjust[v]])
+				}
+			}
+			fs = append(fs, fmt.Sprintf("party%d: %s victim=%d target=%d%s", p.id, rbName[p.fault], p.victim, p.target, vs))
 		}
 	}
 	return map[string]interface{}{"protocol": "rabin", "suite": sc.e.name, "n": sc.n, "t": sc.t, "faults": fs}
@@ -117,9 +140,61 @@ func (e *env) rabinScen(n, t int, faults []int) *rscen {
 		if p.fault != rbHonest {
 			p.victim = honest[e.rng.Intn(len(honest))]
 			p.target = honest[e.rng.Intn(len(honest))]
+			p.vjust = map[int]int{}
+			switch p.fault {
+			case rbBadDealJustOK:
+				p.vjust[p.victim] = vjValid
+			case rbBadDealJustBad:
+				p.vjust[p.victim] = vjInvalid
+			case rbBadDealNoJust:
+				p.vjust[p.victim] = vjNone
+			case rbBadDealsMulti:
+				// at least two victims when there are two honest parties; the answers are drawn independently
+				hp := permutation(e.rng, len(honest))
+				k := 2 + e.rng.Intn(2)
+				if k > len(honest) {
+					k = len(honest)
+				}
+				for _, hi := range hp[:k] {
+					p.vjust[honest[hi]] = e.rng.Intn(3)
+				}
+				p.victim = honest[hp[0]]
+			}
 		}
 	}
 	return sc
+}
+
+// setVictims fixes the victims of a dealer and how each complaint is answered.
+func (p *rparty) setVictims(vj map[int]int) {
+	p.vjust = vj
+	p.victim = -1
+	for v := range vj {
+		if p.victim < 0 || v < p.victim {
+			p.victim = v
+		}
+	}
+}
+
+func (p *rparty) isVictim(j int) bool {
+	if !isBadDeal(p.fault) {
+		return false
+	}
+	_, ok := p.vjust[j]
+	return ok
+}
+
+// unanswered: some complaint of an (honest) victim is not answered by a valid justification
+func (p *rparty) unanswered() bool {
+	if !isBadDeal(p.fault) {
+		return false
+	}
+	for _, a := range p.vjust {
+		if a != vjValid {
+			return true
+		}
+	}
+	return false
 }
 
 type rresp struct {
@@ -134,7 +209,7 @@ type rjust struct {
 }
 
 func isBadDeal(f int) bool {
-	return f == rbBadDealJustOK || f == rbBadDealJustBad || f == rbBadDealNoJust
+	return f == rbBadDealJustOK || f == rbBadDealJustBad || f == rbBadDealNoJust || f == rbBadDealsMulti
 }
 
 func (sc *rscen) run() bool {
@@ -152,12 +227,14 @@ func (sc *rscen) run() bool {
 		p.gen = g
 	}
 	// ---- deals
-	orig := map[int]kyber.Scalar{}
+	orig := map[[2]int]kyber.Scalar{}
 	for _, p := range sc.ps {
 		if isBadDeal(p.fault) {
-			pd, _ := p.gen.VerifDealer().PlaintextDeal(p.victim)
-			orig[p.id] = pd.SecShare.V.Clone()
-			pd.SecShare.V = e.suite.Scalar().Add(pd.SecShare.V, one)
+			for v := range p.vjust {
+				pd, _ := p.gen.VerifDealer().PlaintextDeal(v)
+				orig[[2]int{p.id, v}] = pd.SecShare.V.Clone()
+				pd.SecShare.V = e.suite.Scalar().Add(pd.SecShare.V, one)
+			}
 		}
 	}
 	deals := make([]map[int]*rdkg.Deal, n)
@@ -180,9 +257,14 @@ func (sc *rscen) run() bool {
 			tAt[p.id][j] = pd.T
 		}
 		sc.logf(p, "(RDeal %d true true %d (sc %s) false true)", p.id, tAt[p.id][p.id], sc.coqSc(secAt[p.id][p.id]))
-		if p.fault == rbBadDealJustOK {
-			pd, _ := p.gen.VerifDealer().PlaintextDeal(p.victim)
-			pd.SecShare.V = orig[p.id]
+		if isBadDeal(p.fault) {
+			// where the complaint will be answered validly the dealer keeps the valid deal at hand
+			for v, a := range p.vjust {
+				if a == vjValid {
+					pd, _ := p.gen.VerifDealer().PlaintextDeal(v)
+					pd.SecShare.V = orig[[2]int{p.id, v}]
+				}
+			}
 		}
 	}
 	var respBoard []rresp
@@ -193,7 +275,7 @@ func (sc *rscen) run() bool {
 			}
 			p := sc.ps[j]
 			resp, err := p.gen.ProcessDeal(deals[dealer.id][j])
-			expect := !(isBadDeal(dealer.fault) && dealer.victim == j)
+			expect := !dealer.isVictim(j)
 			oa := resp != nil && resp.Response.Approved
 			sc.logf(p, "(RDeal %d true %s %d (sc %s) %s %s)", dealer.id, cb(expect), tAt[dealer.id][j], sc.coqSc(secAt[dealer.id][j]), cb(err != nil), cb(oa))
 			if err != nil {
@@ -241,14 +323,14 @@ func (sc *rscen) run() bool {
 				Signature: append([]byte{}, rr.r.Signature...)}
 			approved := cp.Approved
 			j, err := p.gen.ProcessResponse(&rdkg.Response{Index: uint32(rr.dealer), Response: cp})
-			ownValid := !((p.fault == rbBadDealJustBad || p.fault == rbBadDealNoJust) && int(rr.r.Index) == p.victim)
+			ownValid := !(p.isVictim(int(rr.r.Index)) && p.vjust[int(rr.r.Index)] != vjValid)
 			sc.logf(p, "(RResp %d %d %s %s %s %s %s %s)", rr.dealer, rr.r.Index, cb(approved), cb(rr.sidOK), cb(rr.sigOK), cb(ownValid), cb(err != nil), cb(j != nil))
 			if j != nil {
 				justBoard = append(justBoard, rjust{dealer: k, j: j, valid: true})
 			}
-			if j == nil && p.fault == rbBadDealJustBad && rr.dealer == k && !approved && rr.sidOK && rr.sigOK && int(rr.r.Index) == p.victim {
+			if j == nil && rr.dealer == k && !approved && rr.sidOK && rr.sigOK && p.isVictim(int(rr.r.Index)) && p.vjust[int(rr.r.Index)] == vjInvalid {
 				// the generator refuses to emit the justification of its invalid deal: the faulty dealer builds it by hand
-				pd, _ := p.gen.VerifDealer().PlaintextDeal(p.victim)
+				pd, _ := p.gen.VerifDealer().PlaintextDeal(int(rr.r.Index))
 				vj := &rvss.Justification{SessionID: p.gen.VerifDealer().SessionID(), Index: rr.r.Index, Deal: pd}
 				vj.Signature, _ = schnorr.Sign(suite, p.priv, vj.Hash(suite))
 				justBoard = append(justBoard, rjust{dealer: k, j: &rdkg.Justification{Index: uint32(k), Justification: vj}, valid: false})
@@ -412,8 +494,12 @@ func (sc *rscen) oracles() {
 				_ = silent
 				fail("rabin/honest-dealer-disqualified", fmt.Sprintf("honest dealer %d is not in QUAL of honest party %d", d.id, p.id))
 			}
-			if (d.fault == rbBadDealJustBad || d.fault == rbBadDealNoJust) && inQual(p, d.id) {
-				fail("rabin/bad-dealer-qualified/"+rbName[d.fault], fmt.Sprintf("dealer %d (%s, victim %d) is in QUAL of honest party %d", d.id, rbName[d.fault], d.victim, p.id))
+			if d.unanswered() && inQual(p, d.id) {
+				key := rbName[d.fault]
+				if len(d.vjust) > 1 {
+					key = "several-victims/complaint-left-unanswered"
+				}
+				fail("rabin/bad-dealer-qualified/"+key, fmt.Sprintf("dealer %d (%s, answers to its victims %v) is in QUAL of honest party %d", d.id, rbName[d.fault], d.vjust, p.id))
 			}
 		}
 	}
@@ -467,8 +553,12 @@ func (sc *rscen) oracles() {
 }
 
 func rabinBatch(envD, envE *env, o vh.Opts, cases *[]string, caseID *int) {
+	var fix func(sc *rscen)
 	run := func(e *env, n, t int, faults []int) {
 		sc := e.rabinScen(n, t, faults)
+		if fix != nil {
+			fix(sc)
+		}
 		if !sc.run() {
 			return
 		}
@@ -496,7 +586,32 @@ func rabinBatch(envD, envE *env, o vh.Opts, cases *[]string, caseID *int) {
 		}
 		e.rep.Sample(sc.describe())
 	}
-	maxN, cnt := 5, 45
+	// one faulty dealer whose victims are the first len(answers) honest parties in a random order
+	runMulti := func(e *env, n, t int, answers []int) {
+		fix = func(sc *rscen) {
+			var honest []int
+			for _, p := range sc.ps {
+				if p.fault == rbHonest {
+					honest = append(honest, p.id)
+				}
+			}
+			hp := permutation(e.rng, len(honest))
+			for _, p := range sc.ps {
+				if p.fault == rbBadDealsMulti {
+					vj := map[int]int{}
+					for k, a := range answers {
+						if k < len(hp) {
+							vj[honest[hp[k]]] = a
+						}
+					}
+					p.setVictims(vj)
+				}
+			}
+		}
+		run(e, n, t, []int{rbBadDealsMulti})
+		fix = nil
+	}
+	maxN, cnt := 5, 40
 	if o.Thorough {
 		maxN, cnt = 7, 400
 	}
@@ -516,6 +631,22 @@ func rabinBatch(envD, envE *env, o vh.Opts, cases *[]string, caseID *int) {
 					for f := 1; f < rbNumFaults; f++ {
 						run(e, n, t, []int{f})
 					}
+				}
+			}
+		}
+		// one dealer, two honest victims, every pair of answers (n=5, t=3: the dealer keeps t approvals), and
+		// three victims with mixed answers for n=6
+		for a := 0; a < 3; a++ {
+			for b := 0; b < 3; b++ {
+				runMulti(e, 5, 3, []int{a, b})
+			}
+		}
+		runMulti(e, 6, 4, []int{vjValid, vjNone})
+		runMulti(e, 6, 4, []int{vjValid, vjValid})
+		if o.Thorough {
+			for a := 0; a < 3; a++ {
+				for b := 0; b < 3; b++ {
+					runMulti(e, 7, 4, []int{a, b, (a + b) % 3})
 				}
 			}
 		}
